@@ -6,6 +6,8 @@ from .. import tol
 from ..core import fp_watch
 from ..models import rfa_model as RM
 
+from . import _jobs  # noqa: E402
+
 PROPERTY = "C05"
 LEVEL = "exploration"
 LEVEL_TEXT = ("Shape predicates evaluated on the output of every real window-strategy run: per interval the samples "
@@ -27,7 +29,7 @@ RULE = ("case = one of 6 strategies x series of 2..60 points (>= 40% tie-rich in
         "(every case draws fresh data)."
         " Also: averages handed over as float32 / float16, a second object of the same class constructed (and used) between construction and rfa(), a second rfa() on the same object after the caller modified the first result, explicit a together with alpha, coincidence value classes (near-ties with large adaptive smoothing)."
         " Round-4 classes: constructor call forms (documented positional order / by name), series of 1001..1800 averages.")
-REQUIRED_MONITORS = ["c05:intervals", "c05:constant_series", "c05:piecewise", "c05:cubic"]
+REQUIRED_MONITORS = ["threads:rfa", "c05:intervals", "c05:constant_series", "c05:piecewise", "c05:cubic"]
 ASSUMPTIONS = ["parameters in the documented ranges; explicit a clamped to >= 2 as documented",
                "monotonicity for exponent < 0.132954 is a recorded known finding (K1), not asserted"]
 NSHARDS = 16
@@ -35,6 +37,10 @@ K1 = "K1-exp-blend-nonmonotone-exponent-below-0.132954"
 
 
 def plan(tier, seed):
+    return _plan(tier, seed) + _jobs.plan(tier)
+
+
+def _plan(tier, seed):
     n = 16000 if tier == "quick" else 1200000
     return [{"kind": "random", "start": p * (n // NSHARDS), "count": n // NSHARDS} for p in range(NSHARDS)]
 
@@ -243,9 +249,13 @@ def run_case(ctx, kind_, idx):
 
 
 def run(ctx, spec):
+    if spec["kind"] == "threads":      # concurrent independent requests vs their sequential answers
+        return _jobs.run(ctx, spec, ["rfa"])
     for idx in range(spec["start"], spec["start"] + spec["count"]):
         run_case(ctx, spec["kind"], idx)
 
 
 def replay(ctx, case):
+    if case["kind"] == "threads":
+        return _jobs.run_case(ctx, ["rfa"], case["idx"])
     run_case(ctx, case["kind"], case["idx"])
